@@ -13,6 +13,8 @@ EXTENDS IrcProps, Json
 VARIABLES S, ev, hist
 vars == <<S, ev, hist>>
 ModelView == S
+(* for the (multi-worker) property check: with the depth in the view the search does not depend on the order in which workers reach a state *)
+CheckView == <<S, Len(hist)>>
 
 St(c, verb, p) == [c |-> c, cmd |-> [verb |-> verb, p |-> p]]
 NoEv == [c |-> "", cmd |-> [verb |-> "", p |-> <<>>], out |-> <<>>]
